@@ -481,3 +481,31 @@ def rg_nx(n, k, x, cols):
 def rg_wit(A, data, y, x, n, rows, cols):
     # a cell with an earlier n-neighbour of equal value carries the label of one of them
     return isnan(data[y, x]) or (not rg_has_back(data, y, x, n, rows, cols)) or rg_shares_back(A, data, y, x, n, rows, cols)
+
+
+# ------------------------------------------------------------------ C05 status structure (array-based red-black tree)
+# tree_nodes[v] = (colour, left, right, parent); tree_vals[v] = (key, grad0, grad1, grad2, ang0, ang1, ang2, max_grad);
+# NIL is index -1, i.e. the last row (a sentinel whose max_grad is the smallest gradient)
+def tn_ptr_ok(v, N):
+    return -1 <= v and v < N - 1
+
+
+def tn_node_ok(v, N):
+    return 0 <= v and v < N - 1
+
+
+def tv_min_grad(tv, v):
+    return min(tv[v, 1], tv[v, 2], tv[v, 3])
+
+
+def is_max3(m, a, b, c):
+    return m >= a and m >= b and m >= c and (m == a or m == b or m == c)
+
+
+def tv_row_finite(tv, v):
+    return isfinite(tv[v, 1]) and isfinite(tv[v, 2]) and isfinite(tv[v, 3]) and isfinite(tv[v, 7])
+
+
+def nid(v, N):
+    # row of a node pointer (NIL = -1 is the last row)
+    return v if v >= 0 else v + N
